@@ -19,11 +19,13 @@ Obj(buf, ro, ri, tx, an, src, how) == [buf |-> buf, ro |-> ro, ri |-> ri, tx |->
 Fields == {"ro", "ri", "tx", "an"}
 
 SharesBuffer == {"slice_events", "slice_channels", "view"}         \* basic indexing and view()
-NewBuffer == {"mask", "pick_channels", "copy", "copycopy", "deepcopy", "pickle", "to_rfi", "to_mef", "start_end", "high_low", "astype"}
+NewBuffer == {"mask", "pick_channels", "dup_cols", "copy", "copycopy", "deepcopy", "pickle", "to_rfi", "to_mef", "start_end", "high_low", "astype"}
 DupOps == {"copy", "copycopy", "deepcopy", "view", "pickle"}
 DeriveOps == SharesBuffer \cup NewBuffer
 (* to_rfi / to_mef / astype produce new VALUES (content token changes); all others keep them *)
-ChangesValues == {"to_rfi", "to_mef"}
+(* dup_cols: a channel-list selection naming one channel twice, then the SECOND copy converted by position - two     *)
+(* columns with one name and different metadata                                                                    *)
+ChangesValues == {"to_rfi", "to_mef", "dup_cols"}
 
 Init == /\ objs = <<Obj(1, 2, 3, 4, 5, 0, "load")>>
         /\ cell = [i \in 1..5 |-> 0]                 \* content version of every cell
